@@ -53,15 +53,19 @@ MatchTwoEnds(i0, i1, nc, n0, n1) ==
             ELSE IF At(i1, n1) = At(i0, p0) THEN MatchTwoEnds(i0, i1, nc - 1, n0, n1 + 1) ELSE "f"
 
 IsPairReduction(i0, i1) == i0 = i1
-IsMatVec(i0, i1) == Len(i0) # Len(i1) /\ MatchFromEnd(i0, i1, Len(i0) - 1, Len(i1) - 1)
-IsVecMat(i0, i1) == Len(i0) # Len(i1) /\ MatchFromStart(i0, i1, 0, 0)
+\* no_trace: a label repeated inside one operand (a trace) cannot be expressed as a flat matrix product; evaluated first (short-circuit)
+HasRepeat(L) == NoOfUnique(L) # Len(L)
+NoTrace(i0, i1) == ~HasRepeat(i0) /\ ~HasRepeat(i1)
+IsMatVec(i0, i1) == NoTrace(i0, i1) /\ Len(i0) # Len(i1) /\ MatchFromEnd(i0, i1, Len(i0) - 1, Len(i1) - 1)
+IsVecMat(i0, i1) == NoTrace(i0, i1) /\ Len(i0) # Len(i1) /\ MatchFromStart(i0, i1, 0, 0)
 NContracted(i0, i1) == Len(i0) + Len(i1) - NoOfUnique(i0 \o i1)
 IsInnerLike(i0, i1) == Len(i0) = Len(i1) /\ NoOfUnique(i0 \o i1) = Len(i1)
-\* is_generalised_matrix_matrix::value  =  !is_mat_vec && !is_vec_mat && !is_inner && match_indices_from_two_ends(...)   (short-circuit)
-MatMat(i0, i1) == IF IsMatVec(i0, i1) \/ IsVecMat(i0, i1) \/ IsInnerLike(i0, i1) THEN "f"
+\* is_generalised_matrix_matrix::value  =  no_trace && !is_mat_vec && !is_vec_mat && !is_inner && match_indices_from_two_ends(...)   (short-circuit)
+MatMat(i0, i1) == IF ~NoTrace(i0, i1) \/ IsMatVec(i0, i1) \/ IsVecMat(i0, i1) \/ IsInnerLike(i0, i1) THEN "f"
                   ELSE MatchTwoEnds(i0, i1, NContracted(i0, i1), Len(i0) - 1, 0)
-\* every einsum<I,J>(a,b) overload names is_generalised_matrix_matrix<I,J>::value in its enable_if: if its evaluation runs out
-\* of bounds no configuration compiles the call ("not offered", outside the property's domain)
+\* every einsum<I,J>(a,b) overload names is_generalised_matrix_matrix<I,J>::value in its enable_if: if its evaluation ran out of
+\* bounds no configuration would compile the call ("not offered").  With no_trace evaluated first ncontracted <= min(N0, N1) whenever
+\* match_indices_from_two_ends is reached, so this holds for every pattern (checked: MC_EinsumDispatch!AllOffered).
 Offered(i0, i1) == MatMat(i0, i1) # "oob"
 
 \* the back end einsum<I,J>(a,b) selects
@@ -82,7 +86,8 @@ RouteOf(form, i0, i1) == IF form = "contraction" THEN (IF NoOfUnique(i0 \o i1) =
 SseLanes(T) == IF T \in {"f64", "i64", "c64"} THEN 2 ELSE 4
 VecStride(T, isa, i0, i1, shapeB) ==
     LET e == shapeB[Len(shapeB)]
-        lastContracted == \E p \in DOMAIN i0 : i0[p] = i1[Len(i1)]          \* contains(idx0, last of Idx1)
+        lastContracted == \/ \E p \in DOMAIN i0 : i0[p] = i1[Len(i1)]       \* contains(idx0, last of Idx1)
+                          \/ Occ(i1, i1[Len(i1)]) > 1                      \* || !is_uniq(idx1, last): repeated inside b (a trace of b)
     IN IF isa = "scalar" \/ lastContracted \/ e % SseLanes(T) # 0 THEN 1
        ELSE IF e % (2 * SseLanes(T)) = 0 THEN 2 * SseLanes(T) ELSE SseLanes(T)
 
@@ -163,20 +168,13 @@ RouteRefinesTo(want, route, a, b, V) == /\ RouteTerms(route, a, b, V) = want
 RouteRefinesL1(route, a, b, V) == RouteRefinesTo(EinsteinTerms(a, b), route, a, b, V)
 
 -----------------------------------------------------------------------------------------
-(* Defect classes of the design found by TLC with the obligation above (reported; see notes/c03_*.cpp).          *)
-(* They are predicates over the discrete parameters of a call, used (a) to exempt exactly these calls from the     *)
-(* obligation in the generator run and (b) by the trace specification to NAME a wrong result of such a call.       *)
-HasRepeat(L) == NoOfUnique(L) # Len(L)
-\* A: is_vectorisable only asks whether b's last label occurs in a; when it is repeated INSIDE b (a trace of b) the loop
-\*    nest still loads V consecutive elements of b and steps the summed label by V
-TraceVectorised(route, T, isa, i0, i1, shapeB) ==
-    route = "nest" /\ Occ(i1, i1[Len(i1)]) = 2 /\ VecStride(T, isa, i0, i1, shapeB) > 1
-\* B: match_indices_from_end/_start compare only the overlapping tail/head; labels repeated inside the longer operand
-\*    (a trace over its remaining axes) are ignored and the call is executed as a flat matrix-vector product
-TraceIgnoredByFlatRoute(route, i0, i1) ==
-    route \in {"mv", "vm"} /\ HasRepeat(IF Len(i0) > Len(i1) THEN i0 ELSE i1)
-DefectClass(route, T, isa, i0, i1, shapeB) ==
-    IF TraceVectorised(route, T, isa, i0, i1, shapeB) THEN "trace_vectorised"
-    ELSE IF TraceIgnoredByFlatRoute(route, i0, i1) THEN "trace_in_flat_route"
-    ELSE ""
+(* History.  On the originally pinned tree TLC found two counterexamples to this obligation (findings C03-F1 / C03-F2,       *)
+(* notes/c03_f1_*.cpp, c03_f2_*.cpp), both for a label repeated INSIDE one operand:                                       *)
+(*  F1  is_vectorisable only asked whether b's last label occurs in a; when it was repeated inside b the loop nest still    *)
+(*      loaded V consecutive elements of b and stepped the summed label by V (wrong values / SIGSEGV);                      *)
+(*  F2  match_indices_from_end/_start compared only the overlapping tail/head, so a call whose longer operand carried a     *)
+(*      trace was executed as a flat matrix-vector product (result buffer overrun), and match_indices_from_two_ends could    *)
+(*      index out of bounds (the call then did not compile).                                                                *)
+(* Both were repaired in /repo (the `|| !is_uniq` disjunct and the no_trace conjunct transcribed above); the obligation       *)
+(* now holds without exemption.                                                                                              *)
 =====================================================================================
